@@ -95,7 +95,13 @@ def bool_facts(b, truth):
         return []
     if b[0] == "cmp":
         op = b[1] if truth else NEG[b[1]]
-        return [cmp_fact(op, b[2], b[3])]
+        f = cmp_fact(op, b[2], b[3])
+        c = f[1].const_value()
+        if c is not None:
+            # a comparison of constants (after substitution / inlining): decided
+            holds = (c >= 0) if f[0] == "ge0" else ((c == 0) if f[0] == "eq0" else (c != 0))
+            return [] if holds else [("false",)]
+        return [f]
     if b[0] == "not":
         return bool_facts(b[1], not truth)
     if b[0] == "bconst":
@@ -144,6 +150,8 @@ class Interp:
         self.calls = {}        # gid -> dict
         self.out_states = {}   # (gid, succ gid) -> state leaving gid towards succ
         self._newtype_cache = {}
+        self.enumj = {}        # (join gid, key) -> {variant name: facts that hold when the value was built as that variant}
+        self.enumj_names = {}  # (join gid, key) -> variant names in declaration order
         self.optj = {}         # (join gid, key) -> (facts that hold only on the Some side, facts that hold only on the None side)
         self.unclassified = {}  # (gid) -> description
         self.prune_type_tests = prune_type_tests
@@ -392,6 +400,10 @@ class Interp:
             pass
         s = c.get("s", "?")
         # const generic parameter
+        if ty.get("k") == "bool":
+            cv = inst.subst.get(s)
+            if cv is not None and cv.get("s") in ("true", "false"):
+                return ("bconst", 1 if cv["s"] == "true" else 0)
         if is_int_ty(ty):
             cv = inst.subst.get(s)
             if cv is not None and cv.get("s", "").isdigit():
@@ -464,6 +476,9 @@ class Interp:
             path, ty = self.eval_place(st, inst, rv["place"])
             # reference to memory addressed by a raw pointer stays that pointer
             if path[0][0] == "M" and not path[1]:
+                if k == "ref":
+                    # `&*p` / `&mut *p`: a reference is made from a raw pointer (the pointee must be a live, in-bounds value)
+                    self.eff(node, idx, "REFOF", ptr=path[0][1], mut=bool(rv.get("mut")), line=line)
                 return path[0][1]
             return ("ref", path)
         if k == "bin":
@@ -539,6 +554,18 @@ class Interp:
             return a
         if k == "discr":
             path, ty = self.eval_place(st, inst, rv["place"])
+            vm = st.env.get((path[0], path[1] + ("$variant",)))
+            if vm is not None and ty.get("k") == "adt":
+                names = ["None", "Some"] if ty.get("path") == "core::option::Option" else \
+                    [v_["name"] for v_ in (self.fx.adts.get(ty.get("path")) or {}).get("variants", [])]
+                if isinstance(vm, tuple) and vm[0] == "const" and vm[1] in names:
+                    return Poly.const(names.index(vm[1]))       # a value of a local enum built here: its variant is known
+                if isinstance(vm, tuple) and vm[0] == "enumj":
+                    self.enumj_names[(vm[1], vm[2])] = names
+                    return Poly.atom(("discr", vm))
+            dd = st.env.get((path[0], path[1] + ("$discr",)))
+            if isinstance(dd, Poly):
+                return dd          # an Option / enum kept in field form: its discriminant cell
             v = st.env.get(path)
             if v is None:
                 # maybe projected from parent
@@ -616,12 +643,30 @@ class Interp:
         """join state b into a (a is the stored in-state); returns (state, changed)"""
         changed = False
         env = {}
+        # an Option built as `None` in one arm and as `Some(aggregate)` in another: bring both sides to the variant-marker form used for local enums
+        for x in (a, b):
+            y = b if x is a else a
+            for k0, v0 in list(x.env.items()):
+                if v0 == ("none",) and k0[0][0] == "L" and y.env.get((k0[0], k0[1] + ("$discr",))) is not None:
+                    del x.env[k0]
+                    x.env[(k0[0], k0[1] + ("$variant",))] = ("const", "None", "")
+            for k0, v0 in list(x.env.items()):
+                if k0[1] and k0[1][-1] == "$discr" and k0[0][0] == "L" and (k0[0], k0[1][:-1] + ("$variant",)) in y.env \
+                        and (k0[0], k0[1][:-1] + ("$variant",)) not in x.env:
+                    x.env[(k0[0], k0[1][:-1] + ("$variant",))] = ("const", "Some" if v0 == Poly.const(1) else "None", "")
+                    del x.env[k0]
         keys = set(a.env) | set(b.env)
         for k in keys:
             va = a.env.get(k)
             vb = b.env.get(k)
             if va is None or vb is None:
                 # present on one side only
+                if k[0][0] == "L" and any(isinstance(c_, str) and c_.startswith("as:") for c_ in k[1]) and not (k[1] and k[1][-1] in ("$discr",)):
+                    # payload of one variant of a local enum built in several arms: only read under that variant - keep it
+                    env[k] = va if va is not None else vb
+                    if env[k] != a.env.get(k):
+                        changed = True
+                    continue
                 if k[0][0] == "L":
                     # local not defined on one path: treat as undefined -> drop (reads give init atoms)
                     if va is not None:
@@ -637,6 +682,13 @@ class Interp:
                     vb = as_poly(vb)
                 if isinstance(vb, Poly) and not isinstance(va, Poly):
                     va = as_poly(va)
+            if va != vb and k[1] and k[1][-1] == "$variant":
+                ej = self._enum_join(gid, k, va, vb, a, b)
+                if ej is not None:
+                    env[k] = ej[0]
+                    if ej[1] or env[k] != a.env.get(k):
+                        changed = True
+                    continue
             oj = None if va == vb else self._opt_join(gid, k, va, vb, a, b)
             if oj is None and va != vb:
                 bj = self._bool_join(gid, k, va, vb, a, b)
@@ -707,6 +759,47 @@ class Interp:
         new = (sst.facts - joined, nst.facts - joined)
         self.optj[(gid, k)] = new
         return ("optj", gid, k, sv[1]), new != old
+
+    def _enum_join(self, gid, k, va, vb, a, b):
+        """a value of a local enum built as different variants in different arms (`enum Growth { Keep, Expand(n) }` computed once, matched later): remember,
+        per variant, what held where it was built; the payload cells of each variant are kept by the caller. -> (marker value, side table changed) or None"""
+        def names(v, st):
+            if isinstance(v, tuple) and v:
+                if v[0] == "const":
+                    return {v[1]: frozenset(st.facts)}
+                if v[0] == "enumj" and v[1] == gid and v[2] == k:
+                    return {n: f | (a.facts & b.facts) for n, f in self.enumj.get((gid, k), {}).items()}
+            return None
+        na, nb = names(va, a), names(vb, b)
+        if na is None or nb is None:
+            return None
+        joined = a.facts & b.facts
+        merged = {}
+        for n in set(na) | set(nb):
+            if n in na and n in nb:
+                merged[n] = (na[n] & nb[n]) - joined
+            else:
+                merged[n] = (na.get(n) if n in na else nb[n]) - joined
+        old = self.enumj.get((gid, k))
+        self.enumj[(gid, k)] = merged
+        return ("enumj", gid, k), merged != old
+
+    def enumj_facts(self, d, val, eq):
+        if isinstance(d, Poly) and len(d.m) == 1:
+            (mono, c), = d.m.items()
+            if c == 1 and len(mono) == 1 and isinstance(mono[0], tuple) and mono[0][0] == "discr" and isinstance(mono[0][1], tuple) and mono[0][1][:1] == ("enumj",):
+                key = (mono[0][1][1], mono[0][1][2])
+                side = self.enumj.get(key, {})
+                names = self.enumj_names.get(key, [])
+                if eq:
+                    if 0 <= val < len(names):
+                        return list(side.get(names[val], [("false",)] if names[val] not in side else []))
+                    return []
+                # `!= val`: if exactly one other variant can have been built, its facts hold
+                others = [n for n in side if not (0 <= val < len(names) and names[val] == n)]
+                if len(others) == 1:
+                    return list(side[others[0]])
+        return []
 
     def _bool_join(self, gid, k, va, vb, a, b):
         """join of two boolean values of which at least one is a constant: remember what held on the arm(s) that can yield true / false"""
@@ -878,8 +971,8 @@ class Interp:
                     self.copy_tree(st, v.path, p)
                 else:
                     st.env[p] = v
-            if not rv["fields"]:
-                st.env[dpath] = ("unit", adt)
+            if not rv["fields"] and kind != "Enum":
+                st.env[dpath] = ("unit", adt)      # (a fieldless enum variant is its `$variant` marker, which must travel with the value)
         else:
             ak = rv.get("agg_kind")
             if ak == "tuple":
@@ -958,13 +1051,23 @@ class Interp:
                     val = int(vals[i])
                     if decided is not None and val != decided:
                         continue
-                    nf = self.switch_facts(d, val, True) + self.optj_facts(d, val, True)
+                    nf = self.switch_facts(d, val, True) + self.optj_facts(d, val, True) + self.enumj_facts(d, val, True)
                 else:
                     if decided is not None and str(decided) in vals:
                         continue
                     nf = []
                     for vv in vals:
                         nf += self.switch_facts(d, int(vv), False) + self.optj_facts(d, int(vv), False)
+                    # the otherwise arm of a match on a joined local enum: the variants not listed
+                    if isinstance(d, Poly) and len(d.m) == 1 and len(list(d.atoms())) == 1 and isinstance(list(d.atoms())[0], tuple) \
+                            and list(d.atoms())[0][:1] == ("discr",) and isinstance(list(d.atoms())[0][1], tuple) and list(d.atoms())[0][1][:1] == ("enumj",):
+                        key_ = (list(d.atoms())[0][1][1], list(d.atoms())[0][1][2])
+                        names_ = self.enumj_names.get(key_, [])
+                        rest_ = [n_ for n_ in self.enumj.get(key_, {}) if n_ not in [names_[int(x_)] for x_ in vals if int(x_) < len(names_)]]
+                        if len(rest_) == 1:
+                            nf += list(self.enumj[key_][rest_[0]])
+                        elif not rest_ and self.enumj.get(key_):
+                            nf += [("false",)]
                     if isinstance(d, tuple) and d and d[0] in ("cmp", "not", "teq", "bcmp", "pcmp", "call", "typetest", "boolj") and vals == ["0"]:
                         nf = bool_facts(d, True)
                 if ("false",) in nf:
@@ -991,6 +1094,15 @@ class Interp:
             path, ty = self.eval_place(st, inst, t["place"])
             dty = self.tcx.subst(t["ty"], inst.subst)
             self.eff(node, nidx, "DROP", path=path, ty=dty, line=line, facts=st.facts)
+            if node.callee_inst is not None and node.closure_call == "dropglue":
+                # a local scope guard: its Drop::drop(&mut guard) runs here
+                ci = node.callee_inst
+                self.eff(node, nidx, "ENTER", callee=ci.path(), args=[("ref", path)], line=line, facts=st.facts, cinst=ci, closure="dropglue")
+                ust = st.copy()
+                self.store(st, (("L", ci.loff + 1), ()), ("ref", path))
+                res = [(ci.bmap[0], st)]
+                res += [(s, ust) for s in unwind_succs()]
+                return res
             res = [(s, st) for s in normal_succs()]
             res += [(s, st.copy()) for s in unwind_succs()]
             return res
@@ -1001,6 +1113,9 @@ class Interp:
                 # copy return value into the caller's destination
                 rpath = (("L", inst.loff + 0), ())
                 rty = self.local_ty(inst, 0)
+                if cnode.closure_call == "dropglue":
+                    self.eff(node, nidx, "LEAVE", callee=inst.path(), call_gid=inst.call_gid, line=line)
+                    return [(s, st) for s in normal_succs()]
                 dpath, dty = self.eval_place(st, inst.parent, ct["dest"])
                 if cnode.closure_call:
                     outs = self.closure_return(st, inst, cnode, rpath, rty, dpath)
